@@ -46,7 +46,7 @@ def _java_cmd(module_path, cfg, workers, metadir, extra, heap="2g", deque=False)
     if deque:
         cmd.append("-Dtlc2.tool.queue.IStateQueue=StateDeque")
     cmd += ["-cp", JAR, "tlc2.TLC", "-workers", str(workers), "-metadir", metadir,
-            "-noGenerateSpecTE", "-config", cfg]
+            "-noGenerateSpecTE", "-maxSetSize", "2200000", "-config", cfg]
     cmd += list(extra) + [module_path]
     return cmd
 
